@@ -97,3 +97,58 @@ def model_bytes(m, b):
 def check(s, kr):
     t = time.time(); r = s.check(); kr.solver_s += time.time() - t; kr.queries += 1
     return r
+
+
+# ------------------------------------------------------------------ real `lexer::tokenize` over the lifted lexer
+from mirsym.machine import Machine, Agg, EnumV, VecV, Str, Ref, Cell, UNIT, some, none, ok, err, simp, is_sym
+
+def tokenize_machine(ctx, N, bytes_=None, extra_stubs=None):
+    """Machine + entry for `lexer::tokenize(source, file_id)` where `source` is N symbolic bytes of valid UTF-8 and the
+    logos Lexer (next/span/slice) is supplied by the lexer lifted from the MIR of the same tree."""
+    P = ctx.program()
+    LM = lexmodel(ctx)
+    if bytes_ is None:
+        b, L, toks = lift(ctx, N)
+    else:
+        b = list(bytes_); L = lexlift.Lift(LM, b); toks = L.lex_all()
+    key = P.find_fn('ironplc-parser', 'lexer::tokenize')
+    def st_lexer(M, fr, callee, a): return Agg('LogosLexer', [a[0], 0, 0])
+    def st_next(M, fr, callee, a):
+        lx = M.deref(a[0]); pos = lx.f[2]
+        if pos >= N: return none()
+        kind, end = toks[pos]
+        e = simp(end)
+        if is_sym(e): e = M.enum_int(end, pos + 1, N)
+        lx.f[1] = pos; lx.f[2] = e
+        kd = simp(kind)
+        iserr = (kd == lexlift.ERR) if not is_sym(kd) else M.branch(kind == lexlift.ERR)
+        if iserr: return some(err(UNIT))
+        if not is_sym(kd) and kd == lexlift.END: raise Unsupported('lexer model returned END before the end of input')
+        return some(ok(EnumV('TokenType', kd, [])))
+    def st_span(M, fr, callee, a):
+        lx = M.deref(a[0]); return Agg('Range', [lx.f[1], lx.f[2]])
+    def st_slice(M, fr, callee, a):
+        lx = M.deref(a[0]); src = M.deref(lx.f[0]); return Ref(Cell(Str(src.b[lx.f[1]:lx.f[2]])))
+    def st_rlen(M, fr, callee, a):
+        r = M.deref(a[0]); return r.f[1] - r.f[0]
+    def st_tclone(M, fr, callee, a):
+        v = M.deref(a[0]); return EnumV(v.name, v.disc, [])
+    stubs = {
+        r'^<token::TokenType as logos::Logos<.*>>::lexer$': st_lexer,
+        r'^<logos::Lexer<.*> as std::iter::Iterator>::next$': st_next,
+        r'^logos::Lexer::<.*>::span$': st_span,
+        r'^logos::Lexer::<.*>::slice$': st_slice,
+        r'^<std::ops::Range<usize> as std::iter::ExactSizeIterator>::len$': st_rlen,
+        r'^<token::TokenType as std::clone::Clone>::clone$': st_tclone,
+    }
+    if extra_stubs: stubs.update(extra_stubs)
+    M = Machine(P, stubs=stubs)
+    valid, _ = utf8_valid(b)
+    M.base_constraints = [valid]
+    def entry(M):
+        src = Ref(Cell(Str(list(b))))
+        return M.call_fn(key, [src, Ref(Cell(Agg('FileId', [Str('f.st')])))])
+    return M, entry, b, L, toks, LM
+
+STUB_NOTES = ['logos::Lexer::{next,span,slice} supplied by the lifted lexer model (MIR of the generated state machine)',
+              '<TokenType as Clone>::clone = identity (derived Clone of a fieldless enum)', 'format!/fmt::Arguments opaque']
